@@ -86,6 +86,9 @@ func (k *KittyImage) Draw(win Window) {
 	if atomicLoad(&k.encoding) {
 		return
 	}
+	if !win.contains(k.w, k.h) {
+		return
+	}
 	col, row := win.Origin()
 	log.Trace("placing kitty image at cell %d,%d", col, row)
 	// the pid is a 32 bit number where the high 16bits are the width and
@@ -194,8 +197,7 @@ func (s *Sixel) Draw(win Window) {
 	if atomicLoad(&s.encoding) {
 		return
 	}
-	w, h := win.Size()
-	if s.w > w || s.h > h {
+	if !win.contains(s.w, s.h) {
 		return
 	}
 	for y := 0; y < s.h; y += 1 {
